@@ -75,7 +75,11 @@ func runC04(c *Check) error {
 	c.Bounds = append(c.Bounds, shortBounds(K0, K1, K2, vers)...)
 	c.Assumptions = append(c.Assumptions, stdAssumptions...)
 	unitJobsC04(c)
-	stepJobs(c)
+	if c.Tier == "thorough" {
+		// the S7 shapes run in C01's quick tier with the same assertions (token text == source
+		// slice at its offsets is asserted there too); C04 repeats them in its thorough tier
+		stepJobs(c)
+	}
 	c.ExploreNeeds(shortShapes("H_C04", K0, K1, K2, vers, 900_000), nil)
 	c.TriviaEmpty = true
 	return corpusShapesLex(c, "H_C04", tierEvery(c, 6, 3), tierEvery(c, 4, 2), false, 3_000_000)
